@@ -797,6 +797,8 @@ func respGuardExtra(t *tr) string {
 	b.WriteString("/-- every write `m[k] = v` to a map that is not created (make / literal / maps.Clone) in the same function: `file|func|expression` -/\ndef mapWritesWithoutMake : List String := " + leanStrList(mapw) + "\n\n")
 	// round 3: the code that reads response-derived variables (area_respguard_vars.go)
 	b.WriteString(respguardVarsExtra(t))
+	// round 4: the code the guns depend on (area_respguard_r4.go)
+	b.WriteString("\n" + respguardRound4Extra(t))
 	return b.String()
 }
 
